@@ -291,6 +291,9 @@ func (p *Prog) installRenames() []string {
 				if base.Types[nk] != nil || pkgOfKey(nk) != pkgOfKey(ok_) || ct.Kind != bt.Kind {
 					continue
 				}
+				if isExportedName(ok_[strings.LastIndex(ok_, ".")+1:]) || isExportedName(nk[strings.LastIndex(nk, ".")+1:]) {
+					continue // exported names are API
+				}
 				var bf, cf []string
 				for _, f := range bt.Fields {
 					bf = append(bf, f.Name+" "+f.Type)
@@ -340,8 +343,8 @@ func (p *Prog) installRenames() []string {
 					}
 					on, nn = om[5], nm[5]
 				}
-				if isExportedName(on) != isExportedName(nn) {
-					continue
+				if isExportedName(on) || isExportedName(nn) {
+					continue // exported names are API: a different name is a different function
 				}
 				sc := 0.7*jaccard(bf.Callees, cf.Callees) + 0.3*nameSim(on, nn)
 				cands = append(cands, renameCand{ok_, nk, sc})
